@@ -307,13 +307,15 @@ pub fn run(ctx: &Ctx, rep: &mut Report) {
                         let exp_typed: Vec<Option<u32>> = list.iter().map(|v| Some(*v)).collect();
                         let present = !list.is_empty() || !via_add;
                         let last = list.last().copied().unwrap_or(8);
+                        // an option set to an empty list may be kept as an empty entry or dropped: both are "no values"
+                        let (typed, raw) = if list.is_empty() { (typed.or(Some(vec![])), raw.or(Some(vec![]))) } else { (typed, raw) };
                         let ok = if present {
                             typed.as_ref() == Some(&exp_typed)
                                 && raw.as_ref() == Some(&exp_raw)
                                 && first == list.first().map(|v| Some(*v))
                                 && reparsed.as_ref() == Some(&exp_raw)
                         } else {
-                            typed.is_none() && raw.is_none() && first.is_none()
+                            typed.as_ref().map(|t| t.is_empty()).unwrap_or(true) && raw.as_ref().map(|t| t.is_empty()).unwrap_or(true) && first.is_none()
                         } && obs_raw == vec![uint::enc(last as u128)]
                             && obs == Some(Some(last));
                         if ok {
